@@ -295,7 +295,7 @@ func TestShutdown(t *testing.T) {
 	} else {
 		for _, d := range directedShut {
 			reps := 1
-			if d == "F27b-meta-reply-pending" || d == "F33-publish-vs-close" {
+			if d == "F27b-meta-reply-pending" || d == "F33-publish-vs-close" || d == "F9b-attach-racing-close" {
 				reps = 20 // the outcome depended on a random choice of select
 			}
 			cases = append(cases, ShutCase{ID: "directed/" + d, Directed: d, Inject: d, Reps: reps})
